@@ -193,6 +193,55 @@ func retyped(p *schemagen.Program, t *schemagen.Type, v *valgen.Value) *valgen.V
 	return x
 }
 
+// uncollide removes map entries whose enum-typed key equals an earlier key after the int32 truncation
+// of the wire (enums are int64 in Go, i32 on the wire). Two such entries are both written, in Go's
+// random map iteration order, and the reader keeps whichever comes last: the value the peer sees is
+// not a function of the value passed (the model fixes the list order). Everything else about wide
+// enum values (truncation of values, of set / list elements, of keys that do not collide) stays in.
+func uncollide(p *schemagen.Program, t *schemagen.Type, v *valgen.Value) *valgen.Value {
+	if v == nil || t == nil {
+		return v
+	}
+	switch v.K {
+	case "some":
+		v.P = uncollide(p, t, v.P)
+	case "list":
+		for i, x := range v.L {
+			v.L[i] = uncollide(p, t.Elem, x)
+		}
+	case "map":
+		seen := map[int32]bool{}
+		var out [][2]*valgen.Value
+		for _, kv := range v.M {
+			if t.Key != nil && t.Key.Kind == "enum" && kv[0].K == "int" {
+				k := int32(kv[0].I)
+				if seen[k] {
+					continue
+				}
+				seen[k] = true
+			}
+			out = append(out, [2]*valgen.Value{uncollide(p, t.Key, kv[0]), uncollide(p, t.Elem, kv[1])})
+		}
+		if out == nil {
+			out = [][2]*valgen.Value{}
+		}
+		v.M = out
+	case "struct":
+		if t.Kind == "struct" {
+			if s := p.Struct(t.Name); s != nil {
+				for i := range v.F {
+					for _, f := range s.Fields {
+						if f.ID == v.F[i].ID {
+							v.F[i].V = uncollide(p, f.Type, v.F[i].V)
+						}
+					}
+				}
+			}
+		}
+	}
+	return v
+}
+
 func nameClass(n string) string {
 	for _, x := range plainNames {
 		if x == n {
@@ -330,7 +379,7 @@ func main() {
 			fn := m.Fn
 			c := &callIn{Svc: m.Owner.QName(), M: fn.Name, fn: fn, Args: []*valgen.Value{}}
 			for _, a := range fn.Args {
-				c.Args = append(c.Args, g.Val(a.Type, rr.Range(0, 2), false))
+				c.Args = append(c.Args, uncollide(p, a.Type, g.Val(a.Type, rr.Range(0, 2), false)))
 			}
 			// scripted outcome
 			roll := rr.Intn(100)
@@ -340,16 +389,16 @@ func main() {
 			case roll < 12 && len(excs) > 0:
 				// an exception type that may or may not be declared by this function
 				e := rng.Pick(rr, excs)
-				c.Out = outcome{K: "throw", T: e.QName(), V: g.Struct(e, rr.Range(0, 2))}
+				c.Out = outcome{K: "throw", T: e.QName(), V: uncollide(p, &schemagen.Type{Kind: "struct", Name: e.QName()}, g.Struct(e, rr.Range(0, 2)))}
 			case roll < 40 && len(fn.Throws) > 0:
 				t := rng.Pick(rr, fn.Throws)
-				c.Out = outcome{K: "throw", T: t.Type.Name, V: g.Struct(p.Struct(t.Type.Name), rr.Range(0, 2))}
+				c.Out = outcome{K: "throw", T: t.Type.Name, V: uncollide(p, &schemagen.Type{Kind: "struct", Name: t.Type.Name}, g.Struct(p.Struct(t.Type.Name), rr.Range(0, 2)))}
 			case fn.Ret != nil:
 				v := g.Val(fn.Ret, rr.Range(0, 2), false)
 				if !valgen.IsBase(fn.Ret) && rr.Chance(1, 8) {
 					v = valgen.Nil()
 				}
-				c.Out = outcome{K: "ret", V: v}
+				c.Out = outcome{K: "ret", V: uncollide(p, fn.Ret, v)}
 			default:
 				c.Out = outcome{K: "void"}
 			}
